@@ -1,0 +1,8 @@
+//go:build !verif
+// +build !verif
+
+package index
+
+// verifYield marks points where the verification harness (build tag `verif`)
+// may inject scheduling noise. Without the tag it is an empty inlined call.
+func verifYield(point string) {}
